@@ -173,21 +173,65 @@ class Printer:
     def apply(self, mapping, args, selfexpr=None, node=None, key=''):
         """mapping: 'fname' | template with {0} {&0} {self} {*self} | '@drop' | '@nondet'; trailing '!' = may throw"""
         throws = False
-        if mapping.endswith('!'):
+        hoist = False
+        if mapping.endswith('!^'):
+            # may-throw callee whose result is used inside a larger expression: the call is hoisted into a temporary
+            # in front of the statement, followed by the exception check (see stmt / function)
+            mapping = mapping[:-2]
+            if node is not None and id(node) == getattr(self, 'discard_id', None):
+                throws = True     # the call IS the statement: the ordinary check after the statement is enough
+            else:
+                hoist = True
+        elif mapping.endswith('!'):
             throws = True
             mapping = mapping[:-1]
-        self.note(mapping)
+        self.note(mapping + ('!^' if hoist else ''))
+        if hoist:
+            return self.hoist_call(self.apply_plain(mapping, args, selfexpr, node, key), node)
         if throws:
             self.may_throw = True
             self.pending_throw = True
+        return self.apply_plain(mapping, args, selfexpr, node, key, noted=True)
+
+    def hoist_call(self, text, node):
+        if getattr(self, 'hoisted', None) is None:
+            raise Unsupported('hoisted (!^) call in a context that cannot take a statement in front')
+        # several hoisted calls of one statement are emitted in source order; C++ leaves the evaluation order of
+        # function arguments unspecified, so the spec may mark callees '!^' only when they are independent of each
+        # other (pure up to throwing), which makes every order equivalent
+        self.may_throw = True
+        self.tmp += 1
+        t = f'nv_call{self.tmp}'
+        byref = text.startswith('(*') and node.get('valueCategory') == 'lvalue'
+        c = self.ctype(node['type'])
+        if byref:
+            text = text[2:-1]
+            c += '*'
+        self.hoisted.append(f'{c} {t} = {text};')
+        self.hoisted.append(f'if (nv_thrown) return {self.default_value(self.ret_ctype)};')
+        return f'(*{t})' if byref else t
+
+    def apply_plain(self, mapping, args, selfexpr=None, node=None, key='', noted=False):
         if mapping == '@drop':
+            return '((void)0)'
+        if mapping == '@throw':
+            # a [[noreturn]] callee that always throws; only valid as an expression statement (see stmt)
+            if not getattr(self, 'in_expr_stmt', False):
+                raise Unsupported(f'@throw mapping outside an expression statement ({key})')
+            self.may_throw = True
+            self.always_throws = True
             return '((void)0)'
         if mapping == '@nondet':
             c = self.ctype(node['type'])
             return self.nondet(c)
         if '{' not in mapping and '(' not in mapping:
             a = ([selfexpr] if selfexpr is not None else []) + [self.arg(x) for x in args]
-            return f'{mapping}({", ".join(a)})'
+            text = f'{mapping}({", ".join(a)})'
+            if node is not None and node.get('kind') in ('CallExpr', 'CXXMemberCallExpr') \
+                    and node.get('valueCategory') in ('lvalue', 'xvalue') and id(node) != getattr(self, 'discard_id', None):
+                # a by-name stub / extracted function returning a reference returns a pointer in C
+                return f'(*{text})'
+            return text
 
         def sub(m):
             w = m.group(1)
@@ -633,7 +677,25 @@ class Printer:
         self.loops += 1
         return f'NV_LOOP_{self.cname}_{self.loops}'
 
+    HOIST_OK = {'DeclStmt', 'ReturnStmt', 'CallExpr', 'CXXMemberCallExpr', 'CXXOperatorCallExpr', 'BinaryOperator',
+                'CompoundAssignOperator', 'ExprWithCleanups'}
+
     def stmt(self, n, ind):
+        outer = getattr(self, 'hoisted', None)
+        self.hoisted = []
+        try:
+            r = self.stmt1(n, ind)
+            mine = self.hoisted
+        finally:
+            self.hoisted = outer
+        if mine:
+            if n.get('kind') not in self.HOIST_OK:
+                raise Unsupported(f'hoisted (!^) call inside a {n.get("kind")}')
+            p = '  ' * ind
+            r = ''.join(f'{p}{h}\n' for h in mine) + r
+        return r
+
+    def stmt1(self, n, ind):
         for h in self.stmt_hooks:
             r = h(self, n, ind)
             if r is not None:
@@ -661,12 +723,26 @@ class Printer:
             if n.get('hasInit'):
                 pre = self.stmt(parts.pop(0), ind + 1)
             if n.get('hasVar'):
-                raise Unsupported('if with condition variable')
+                # if (T x = init): clang lists the declaration, then the condition (x converted to bool); the variable
+                # is scoped to the whole if statement
+                if parts[0].get('kind') != 'DeclStmt' or n.get('isConstexpr'):
+                    raise Unsupported('if with condition variable of unexpected shape')
+                pre += self.stmt(parts.pop(0), ind + 1)
+            if n.get('isConstexpr'):
+                # `if constexpr` in an instantiation: clang has evaluated the condition (ConstantExpr value) and
+                # discarded the other branch; only the taken branch is printed
+                cv = parts[0].get('value') if parts[0].get('kind') == 'ConstantExpr' else None
+                if cv not in ('true', 'false') or pre:
+                    raise Unsupported('if constexpr whose condition clang did not evaluate')
+                self.note('if constexpr -> taken branch')
+                if cv == 'true':
+                    return self.block(parts[1], ind)
+                return self.block(parts[2], ind) if len(parts) > 2 else ''
             s = f'{p}if ({self.cond(parts[0])})\n' + self.block(parts[1], ind)
             if len(parts) > 2:
                 s += f'{p}else\n' + self.block(parts[2], ind)
             if pre:
-                s = f'{p}{{\n{pre}{s}{p}}}\n'
+                s = f'{p}{{\n{pre}' + ''.join('  ' + ln + '\n' for ln in s.rstrip('\n').split('\n')) + f'{p}}}\n'
             return s
         if k == 'ForStmt':
             init, condvar, cond, inc, body = inner
@@ -740,6 +816,9 @@ class Printer:
             return f'{p}default:\n' + self.stmt(inner[0], ind + 1)
         if k == 'CXXThrowExpr':
             return self.throw_stmt(p)
+        if self.critical0_call(n):
+            self.note('critical0(...) -> throw')
+            return self.throw_stmt(p)
         crit = self.critical_call(n)
         if crit is not None:
             self.may_throw = True
@@ -752,7 +831,22 @@ class Printer:
         if k in ('CXXTryStmt', 'CXXCatchStmt', 'GotoStmt', 'LabelStmt', 'LambdaExpr'):
             raise Unsupported(f'statement kind {k} (target {self.cname})')
         # expression statement
-        e = self.expr(n)
+        self.always_throws = False
+        self.in_expr_stmt = True
+        top = n
+        while top.get('kind') in TRANSPARENT and top.get('inner'):
+            top = top['inner'][0]
+        self.discard_id = id(top)     # value of the statement's top-level call is discarded (no dereference)
+        try:
+            e = self.expr(n)
+        finally:
+            self.in_expr_stmt = False
+            self.discard_id = None
+        if self.always_throws:
+            self.always_throws = False
+            if e != '((void)0)':
+                raise Unsupported('@throw mapping used inside a larger expression')
+            return self.throw_stmt(p)
         if e in ('nv_opaque_value()',) or re.fullmatch(r'nv_nondet_\w+\(\)', e):
             e = '((void)0)'
         if e == '((void)0)':
@@ -772,6 +866,15 @@ class Printer:
         if rd.get('name') != 'critical' or len(u['inner']) < 2:
             return None
         return u['inner'][1]
+
+    def critical0_call(self, n):
+        """nano::critical0(message...) used as a statement: [[noreturn]], always throws (messages are not translated)"""
+        u = n
+        while u.get('kind') in TRANSPARENT and u.get('inner'):
+            u = u['inner'][0]
+        if u.get('kind') != 'CallExpr' or not u.get('inner'):
+            return False
+        return unwrap(u['inner'][0]).get('referencedDecl', {}).get('name') == 'critical0'
 
     def range_for(self, n, ind):
         """range-based for, printed from clang's own desugaring (__range, __begin, __end, condition, increment, loop
@@ -818,7 +921,9 @@ class Printer:
         else:
             rc = self.ctype_q(rett)
         self.ret_ctype = rc
-        self.ret_is_ref = (not ret_override and rett.rstrip().endswith('&') and d.get('kind') != 'CXXConstructorDecl')
+        # a function returning a reference returns the address of the returned glvalue
+        self.ret_is_ref = (not ret_override and d.get('kind') != 'CXXConstructorDecl' and rett.endswith('&')
+                           and rc.endswith('*'))
         ps = []
         if self.self_struct:
             ps.append(f'{self.self_struct}* self')
@@ -846,7 +951,11 @@ class Printer:
                         e = self.field_init(d.get('name'), any_['name'])
                     if e is None:
                         raise Unsupported(f'default member initialiser of {any_["name"]} is not in the dump')
-                pre += f'  self->{any_["name"]} = {self.expr(e)};\n' + self.after('  ')
+                self.hoisted = []
+                ie = self.expr(e)
+                pre += ''.join(f'  {h}\n' for h in self.hoisted)
+                self.hoisted = None
+                pre += f'  self->{any_["name"]} = {ie};\n' + self.after('  ')
             text = text.replace('{\n', '{\n' + pre, 1)
         sig = f'{rc} {self.cname}({", ".join(ps) if ps else "void"})'
         self.signature = sig
